@@ -118,6 +118,7 @@ func C09(c *core.Ctx) {
 	// alike; that is sound only while Pkt.Name is the name of the packet in Pkt.L3.
 	c09NameCoherence(c)
 	c09RawIsOneElement(c)
+	c09ClassifiedAddressIsSet(c)
 
 	// ---- R9.3a: sendFrame is only called inside fw/face.
 	nFrame := 0
@@ -540,4 +541,66 @@ func c09RawIsOneElement(c *core.Ctx) {
 		})
 	}
 	c.Floor("R9.5", "stores of a received buffer into Pkt.Raw", n, 2)
+}
+
+// c09ClassifiedAddressIsSet (R9.3b): the address a constructor classifies with IsLoopback()
+// is one it HAS: a parameter, the result of a call, or a field of the object under
+// construction that was stored before the test. A field that is only assigned later in the
+// constructor is still nil at the test — IsLoopback() of a nil IP is false, so every face
+// of that transport (also to 127.0.0.1) becomes non-local and the /localhost exchanges of
+// local applications with the forwarder are dropped ("local faces are unaffected").
+func c09ClassifiedAddressIsSet(c *core.Ctx) {
+	p := c.P
+	n := 0
+	for _, fn := range p.FuncsIn(core.ModPath + "/fw/face") {
+		if strings.HasSuffix(p.File(fn.Pos()), "_test.go") {
+			continue
+		}
+		core.Instrs(fn, func(in ssa.Instruction) {
+			cl, ok := in.(*ssa.Call)
+			if !ok {
+				return
+			}
+			if _, isL := core.IsCall(cl, core.CalleeID{Pkg: "net", Recv: "IP", Name: "IsLoopback"}); !isL {
+				return
+			}
+			n++
+			recv, _ := core.CallArgs(&cl.Call)
+			root, path := core.FieldPath(recv)
+			if len(path) == 0 {
+				c.Ok("R9.3", fmt.Sprintf("classified-address-is-set:%s#%d", core.FuncName(fn), n), c.Pos(in), "the classified address is a local value (parameter, call result)")
+				return
+			}
+			// a field: of the object under construction?
+			fresh := false
+			switch r := core.Strip(root).(type) {
+			case *ssa.Alloc:
+				fresh = true
+			case *ssa.Call:
+				if b, isB := r.Call.Value.(*ssa.Builtin); isB && b.Name() == "new" {
+					fresh = true
+				}
+			}
+			if !fresh {
+				c.Ok("R9.3", fmt.Sprintf("classified-address-is-set:%s#%d", core.FuncName(fn), n), c.Pos(in), "the classified address is a field of an existing object")
+				return
+			}
+			// the first field of the path must have been stored before the test
+			first := path[0]
+			stored := core.Precedes(fn, in, func(x ssa.Instruction) bool {
+				st, ok := x.(*ssa.Store)
+				if !ok {
+					return false
+				}
+				fa, ok := st.Addr.(*ssa.FieldAddr)
+				if !ok {
+					return false
+				}
+				_, fld := core.FieldAddrName(fa)
+				return fld == first && (core.Strip(fa.X) == core.Strip(root) || core.Same(fa.X, root))
+			})
+			c.Decide(stored, "R9.3", fmt.Sprintf("classified-address-is-set:%s#%d", core.FuncName(fn), n), c.Pos(in), "the classified field was stored before the test", core.FuncName(fn)+" classifies the field "+strings.Join(path, ".")+" of the object it is constructing with IsLoopback() before that field is assigned: the address is still nil, IsLoopback() is false, and every face made by this constructor — also one to the loopback address — becomes non-local, so a local application attached that way has its /localhost exchanges with the forwarder dropped")
+		})
+	}
+	c.Floor("R9.3", "IsLoopback classifications in fw/face", n, 3)
 }
